@@ -15,7 +15,8 @@ from .simsched import Scheduler, SimQueue, SimEvent, SimLock, SharedFlag, fork_c
 class Cfg:
     def __init__(self, n_workers=2, work_cap="default", res_cap=None, factory=False, quota=None, wait_ready=False,
                  calls=((3, 1, True),), begin_fault=(), item_fault=(), ready_mid=False, none_inputs=False,
-                 body_raises=False, impatient=False, input_kind=0, fault_exc="RuntimeError"):
+                 body_raises=False, impatient=False, input_kind=0, fault_exc="RuntimeError",
+                 end_fault=(), float_chunks=False):
         """calls: (number of items, chunk_size, ordered)"""
         self.n_workers = n_workers
         self.work_cap = work_cap  # "default" (1.0) | None | int | float
@@ -41,6 +42,10 @@ class Cfg:
         # what an injected fault raises: an ordinary exception, or one that is not derived from Exception (sys.exit() inside
         # the functor, Ctrl-C) — end() runs once in every case
         self.fault_exc = fault_exc
+        # workers whose end() raises (after everything else of the worker has happened: the model's steps are the same)
+        self.end_fault = list(end_fault)
+        # chunk sizes are handed over as floats with an integral value (2.0 for 2)
+        self.float_chunks = float_chunks
 
     @property
     def oracle_only(self):
@@ -54,7 +59,7 @@ class Cfg:
 
     def model_line(self):
         o = lambda v: "-" if v is None else str(v)
-        calls = " ".join(f"{-(-n // cs)}:{1 if ordered else 0}" for n, cs, ordered in self.calls)
+        calls = " ".join(f"{-(-n // int(cs))}:{1 if ordered else 0}" for n, cs, ordered in self.calls)
         wc = self.work_cap_int()
         rc = self.res_cap
         # a quota given as a float (the parameter's annotation) counts chunks like the least integer not below it
@@ -68,7 +73,7 @@ class Cfg:
                     quota=self.quota, wait_ready=self.wait_ready, calls=self.calls, begin_fault=self.begin_fault,
                     item_fault=self.item_fault, ready_mid=self.ready_mid, none_inputs=self.none_inputs,
                     body_raises=self.body_raises, impatient=self.impatient, input_kind=self.input_kind,
-                    fault_exc=self.fault_exc)
+                    fault_exc=self.fault_exc, end_fault=self.end_fault, float_chunks=self.float_chunks)
 
 
 class SimEnv:
@@ -196,10 +201,13 @@ class SimEnv:
             def begin(self):
                 env.logs.setdefault(self.wid, []).append("b")
                 if self.wid in env.cfg.begin_fault:
+                    self._fault_hit = True
                     raise FAULTS[env.cfg.fault_exc]("begin failed")
 
             def end(self):
                 env.logs.setdefault(self.wid, []).append("e")
+                if self.wid in env.cfg.end_fault:
+                    raise EndFailed("end failed")
 
             def start(self):
                 env.sched.visible(f"start W{self.wid}")
@@ -214,7 +222,8 @@ class SimEnv:
                     except BaseException as e:  # noqa
                         if isinstance(e, simsched._Abort):
                             raise
-                        env.crashed[parent.wid] = type(e).__name__
+                        if not isinstance(e, EndFailed) or getattr(child, "_fault_hit", False):
+                            env.crashed[parent.wid] = type(e).__name__
                         parent._sim_exit = 1
 
                 self._sim_thread = env.sched.spawn(f"W{self.wid}", body)
@@ -235,6 +244,7 @@ class SimEnv:
                         env.logs.setdefault(me.wid, []).append(f"i{item[0]}")
                         if (me.wid, me._chunk_no) in env.cfg.item_fault:
                             me._chunk_no += 1
+                            me._fault_hit = True
                             item = (item[0], [FaultItem(env.cfg.fault_exc)] * max(1, len(item[1])))
                         else:
                             me._chunk_no += 1
@@ -324,15 +334,19 @@ class SimEnv:
                     self.ghosts = getattr(self, "ghosts", []) + [pool.imap(iter([7, 8, 9]), 1), pool.imap_unordered([7, 8], 2)]
                 it = made.get(len(self.results) - 1)
                 if it is None:
-                    it = pool.imap(data, cs) if ordered else pool.imap_unordered(data, cs)
+                    csz = float(cs) if self.cfg.float_chunks else cs
+                    it = pool.imap(data, csz) if ordered else pool.imap_unordered(data, csz)
                 first = True
                 for x in it:
                     res.append(x)
                     if first and self.cfg.ready_mid:
                         first = False
+                        listed_before = list(pool.procs)
                         pool.until_all_ready()
-                        # at the moment it returns, every worker the pool lists must have completed begin()
-                        late = [p.wid for p in pool.procs if not p.begin_finished.flag]
+                        # at the moment it returns, every worker that the pool listed when the call started and still lists
+                        # must have completed begin() (a successor listed by the replace thread in between is not one the
+                        # call could have waited for)
+                        late = [p.wid for p in pool.procs if any(p is q for q in listed_before) and not p.begin_finished.flag]
                         if late:
                             self.ready_violations.append(late)
             if self.cfg.body_raises:
@@ -391,6 +405,10 @@ class SimEnv:
         for k, (n, cs, ordered) in enumerate(self.cfg.calls):
             exp.append([core.pool_f(core.pool_input(k, i, self.cfg.none_inputs)) for i in range(n)])
         return exp
+
+
+class EndFailed(RuntimeError):
+    pass
 
 
 class SizedWrapper:
